@@ -95,6 +95,11 @@ func genList(r *rng, pool []string, maxN int, neg bool, sep string) string {
 	if len(items) == 0 {
 		items = []string{pick(r, pool)}
 	}
+	if r.chance(1, 24) {
+		// a LONG value list (log-scale, up to a few hundred values): generated values around the pool's ones, so
+		// that the value a request hits may be the 9th, the 70th or the 300th of the list
+		items = nSpread(r, items, nWideValues(nValueCount(r, 7, 300), pool))
+	}
 	for i := range items {
 		if neg {
 			items[i] = negate(r, items[i], 1, 3)
@@ -106,6 +111,9 @@ func genList(r *rng, pool []string, maxN int, neg bool, sep string) string {
 
 func genClientValue(r *rng) string {
 	n := 1 + r.n(4)
+	if r.chance(1, 24) {
+		n = nValueCount(r, 5, 120)
+	}
 	var items []string
 	for i := 0; i < n; i++ {
 		var c string
@@ -255,6 +263,14 @@ func urlAround(r *rng, pattern string) string {
 	if r.chance(1, 6) {
 		u += pick(r, poolPaths)
 	}
+	switch r.n(20) {
+	case 0:
+		// a LONG URL (log-scale, up to beyond the 4 KiB cap): filler between the host and the part the pattern is about
+		u = nLongURL(r, u, nPadLen(r))
+	case 1, 2, 3:
+		// a URL of ordinary length for a real page (70..300 bytes; the generated ones are 20..60 bytes long)
+		u = nLongURL(r, u, nLog(r, 8, 250))
+	}
 
 	return u
 }
@@ -269,10 +285,22 @@ func genURL(r *rng, ruleTexts []string) string {
 		return urlAround(r, t)
 	}
 
+	if r.chance(1, 20) {
+		return pick(r, poolSchemes) + "://" + nLongHost(r, pick(r, poolDomains)) + pick(r, poolPaths)
+	}
+
 	return pick(r, poolSchemes) + "://" + pick(r, poolDomains) + pick(r, poolPaths)
 }
 
 func genSourceURL(r *rng) string {
+	if r.chance(1, 24) {
+		// a long referrer host (up to 253 bytes) or a long referrer URL
+		if r.chance(1, 2) {
+			return "https://" + nLongHost(r, pick(r, poolDomains)) + pick(r, poolPaths)
+		}
+
+		return nLongURL(r, "http://"+pick(r, poolDomains)+pick(r, poolPaths), nPadLen(r))
+	}
 	switch r.n(6) {
 	case 0:
 		return ""
@@ -285,6 +313,19 @@ func genSourceURL(r *rng) string {
 
 func genSortedTags(r *rng) []string {
 	tags := subset(r, poolTags, 4)
+	if r.chance(1, 24) {
+		// many client tags (log-scale): the tag a rule names sorts before, between or after generated ones
+		seen := map[string]bool{}
+		for _, t := range tags {
+			seen[t] = true
+		}
+		for _, t := range nWideValues(nLog(r, 5, 100), poolTags) {
+			if !seen[t] {
+				seen[t] = true
+				tags = append(tags, t)
+			}
+		}
+	}
 	sort.Strings(tags)
 
 	return tags
@@ -320,6 +361,10 @@ func genHostname(r *rng, ruleTexts []string) string {
 	}
 	if r.chance(1, 8) {
 		return pick(r, []string{"1.2.3.4", "::1", "10.0.0.5", "abc", "fe", "1.2.3.999"})
+	}
+
+	if r.chance(1, 20) {
+		return nLongHost(r, pick(r, poolDomains)) // a long name (up to 253 bytes) under a pool name
 	}
 
 	return pick(r, []string{"", "www.", "sub."}) + pick(r, poolDomains)
